@@ -129,8 +129,9 @@ def cartesian_ring_position_is_a_bijection_per_ring(ctx, offset):
 # KNOWN DEFECT (pre-existing, reported by an independent engineer; unchanged tree): a bounds-defined dimension with n bounds
 # has n - 1 cells, but getIndexBounds() counts the bounds and the grid builds n locators; the last one is no cell:
 #   g = AxialGrid.fromNCells(3); len(g) -> 4; g[0, 0, 3].getLocalCoordinates() -> IndexError
-# VERIF_SHOW_KNOWN_DEFECTS=1 shows the violations.
-KNOWN_DEFECT_bounds_defined_grid_builds_a_locator_beyond_its_last_cell = True
+# RECORDED in /verif/known_findings.jsonl (not repaired: StructuredGrid test_getIndexBounds pins the count, and the
+# axial-only classification of a one-cell axial grid, kLen > 1, rests on it); the obligations are live.
+KNOWN_DEFECT_bounds_defined_grid_builds_a_locator_beyond_its_last_cell = False
 
 
 @harness("C07", bounds="bounds-defined axis with 2..4 strictly increasing symbolic bounds; index forked over its range; "
@@ -155,15 +156,17 @@ def bounds_defined_cells(ctx, n):
     ctx.check("axial-only grid", g.isAxialOnly)
     if _SHOW_KNOWN or not KNOWN_DEFECT_bounds_defined_grid_builds_a_locator_beyond_its_last_cell:
         # cell indices <-> locator objects: the grid holds one locator per cell, and every locator it holds is a cell
+        held = dict(g.items())
         ctx.check("n bounds make n - 1 cells: the grid holds n - 1 locators", len(g) == n - 1)
-        for kk in range(n):
-            if (0, 0, kk) in dict(g.items()):
-                try:
-                    dict(g.items())[0, 0, kk].getLocalCoordinates()
-                    isCell = True
-                except IndexError:
-                    isCell = False
-                ctx.check("the locator (0, 0, %d) the grid holds is a cell with coordinates" % kk, isCell)
+        ctx.check("n bounds make n - 1 cells: the grid holds no locator beyond its last cell (0, 0, n - 2)",
+                  not any(key[2] > n - 2 for key in held))
+        for kk in range(n - 1):
+            try:
+                held[0, 0, kk].getLocalCoordinates()
+                isCell = True
+            except (KeyError, IndexError):
+                isCell = False
+            ctx.check("the grid holds a locator for its cell (0, 0, %d), with coordinates" % kk, isCell)
     try:
         g.getCoordinates((0, 0, -1))
         refused = False
@@ -250,7 +253,7 @@ def nested_locations_compose(ctx):
 #   g = CartesianGrid(unitSteps=((1.0, 0.0), (0.0, 2.0)), bounds=(None, None, [0.0, 1.0, 3.0]))
 #   CartesianGrid(*g.reduce()) -> ValueError: setting an array element with a sequence (inhomogeneous shape)
 # While the flag is set the mixed kind is left out of the instances; VERIF_SHOW_KNOWN_DEFECTS=1 shows the violation.
-KNOWN_DEFECT_reduce_of_mixed_steps_and_bounds_grid_is_ragged = True
+KNOWN_DEFECT_reduce_of_mixed_steps_and_bounds_grid_is_ragged = False  # repaired in /repo (fix: b40a761)
 _SHOW_KNOWN = os.environ.get("VERIF_SHOW_KNOWN_DEFECTS", "") != ""
 REBUILD_KINDS = ["hex", "hexCorners", "cart", "cartOffset", "axial"] + (
     ["cartZbounds"] if _SHOW_KNOWN or not KNOWN_DEFECT_reduce_of_mixed_steps_and_bounds_grid_is_ragged else [])
@@ -585,7 +588,7 @@ def cell_centre_base_top_add_the_offset_in_every_dimension(ctx, kind):
 # CartesianGrid.fromRectangle(1.0, 1.0); cl = CoordinateLocation(0.3, 0.4, 0.5, o1.spatialGrid):
 #   cl.getGlobalCoordinates() -> [17.62, 0.4, 0.5]   cl.getGlobalCellBase() -> [0.3, 0.4, 0.5]
 # VERIF_SHOW_KNOWN_DEFECTS=1 shows the violations.
-KNOWN_DEFECT_coordinate_location_global_cell_base_is_local = True
+KNOWN_DEFECT_coordinate_location_global_cell_base_is_local = False  # repaired in /repo (fix: 2342053)
 # KNOWN DEFECT (candidate, found while writing this harness; unchanged tree): IndexLocation.getGlobalCellBase / -Top add
 # the parent's global cell BASE / TOP instead of the parent's global coordinates (the origin of a nested grid is the
 # parent's centre, as getGlobalCoordinates has it), so a nested cell grows by the parent's cell:
@@ -593,8 +596,11 @@ KNOWN_DEFECT_coordinate_location_global_cell_base_is_local = True
 #   CartesianGrid.fromRectangle(1.0, 1.0); pin = o1.spatialGrid[0, 0, 0]
 #   pin.getGlobalCoordinates() -> [30, 0, 0]; pin.getGlobalCellBase() -> [24.5, -5.5, 0]; getGlobalCellTop() -> [35.5, 5.5, 0]
 #   (a 1 cm cell reported 11 cm wide).  The z of a block in an assembly in a 2-D core grid is unaffected (base = centre = 0
-#   there).  While the flag is set the obligation is made for the outermost grid only.
-KNOWN_DEFECT_global_cell_base_adds_the_parents_cell_base = True
+#   there).  RECORDED in /verif/known_findings.jsonl (not repaired: for a block in an assembly in a Cartesian core armi's
+#   test_recursion pins the inherited base (1.5, 2.5, 3) and Core.findAllMeshPoints reads the assembly's x-y extent from
+#   it; when a nested cell inherits its parent's cell and when it sits at the parent's centre is a design decision).
+#   The obligation is live at every level: level m fails exactly when an enclosing level is hexagonal or Cartesian.
+KNOWN_DEFECT_global_cell_base_adds_the_parents_cell_base = False
 NEST_KINDS = ("hex", "cart", "axial")
 
 
@@ -652,7 +658,7 @@ def three_deep_nestings_add_coordinates_always_and_indices_only_axial_in_radial(
             ctx.check_close("level %d (%s): global %s = own cell centre + parent's global coordinate" % (m + 1, kind, "xyz"[c]),
                             got[c], want, scale=sc)
         parentGlobal = [local[c] + parentGlobal[c] for c in range(3)]
-        if kind == "cart" and (m == 0 or _SHOW_KNOWN or not KNOWN_DEFECT_global_cell_base_adds_the_parents_cell_base):
+        if kind == "cart":
             # a rectangular cell seen from the global frame is the same rectangle about its global centre
             gb, gt = loc.getGlobalCellBase(), loc.getGlobalCellTop()
             for c, width in ((0, pq[m][0]), (1, pq[m][1])):
@@ -767,8 +773,8 @@ def ring_position_plane_to_locator_and_back(ctx, kind, leg):
 #      c = CartesianGrid(unitSteps=((1.0, 0, 0), (0, 2.0, 0), (0, 0, 0)), offset=(0.5, 1.0, 7.0))
 #      c.getCoordinates((1, 1, 0))[2] -> 7.0 ; c.changePitch(2.0, 4.0) ; c.getCoordinates((1, 1, 0))[2] -> 0.0
 # VERIF_SHOW_KNOWN_DEFECTS=1 shows the violations.
-KNOWN_DEFECT_hex_change_pitch_discards_axial_step = True
-KNOWN_DEFECT_cartesian_change_pitch_discards_axial_step_and_offset = True
+KNOWN_DEFECT_hex_change_pitch_discards_axial_step = False  # repaired in /repo (fix: d757748)
+KNOWN_DEFECT_cartesian_change_pitch_discards_axial_step_and_offset = False  # repaired in /repo (fix: 7ffcd4c)
 
 
 @harness("C07", bounds="hex (both orientations) and Cartesian grids extruded in z: symbolic axial step, symbolic z offset "
